@@ -191,10 +191,20 @@ def impl_decf(case, key, sid, hdr, body):
 
 
 def impl_handshake(case, dk, uk, uid, sid, mac):
-    s = SecureSession.__new__(SecureSession)
-    s._device_authentication_code = dk
-    s._user_password = uk
-    s.user_id = uid
+    if "upw" in case:
+        # through the real constructor: derive_user_password / derive_device_authentication_password run on the strings
+        # (the op line carries the keys an independent PBKDF2-HMAC-SHA256 derives from them)
+        if case.get("prime"):
+            # the session configured just before in this process (makes the case reproduce on its own with --replay)
+            SecureSession(remote_addr=("127.0.0.1", 3671), user_id=1, user_password=case["prime"][0],
+                          device_authentication_password=case["prime"][1] or None)
+        s = SecureSession(remote_addr=("127.0.0.1", 3671), user_id=uid, user_password=case["upw"],
+                          device_authentication_password=case["dpw"] or None)
+    else:
+        s = SecureSession.__new__(SecureSession)
+        s._device_authentication_code = dk
+        s._user_password = uk
+        s.user_id = uid
     s._private_key = X25519PrivateKey.from_private_bytes(bytes.fromhex(case["cpriv"]))
     s.public_key = s._private_key.public_key().public_bytes(serialization.Encoding.Raw, serialization.PublicFormat.Raw)
     resp = SessionResponse(secure_session_id=sid, ecdh_server_public_key=bytes.fromhex(case["spub"]),
@@ -282,7 +292,9 @@ def oracle(case, out):
             return None if out == "err mac" else "SessionResponse with a wrong MAC was accepted"
         ref = R.session_authenticate_mac(bytes.fromhex(t[3]), int(t[4]), bytes.fromhex(case["cpub"]), bytes.fromhex(case["spub"]))
         if out != "ok " + ref.hex():
-            return f"handshake: {out[:60]} (expected SessionAuthenticate MAC {ref.hex()})"
+            extra = (f" [user password {case['upw'][:12]!r}, device authentication password {case['dpw'][:12]!r} through the "
+                     f"derive_* functions]" if "upw" in case else "")
+            return f"handshake: {out[:60]} (expected SessionAuthenticate MAC {ref.hex()}){extra}"
         if case.get("_key") != case["skey"]:
             return "session key is not SHA-256(shared secret)[:16]"
         return None
@@ -417,6 +429,30 @@ def generate(rng, tier):
             mac, want = bytes(m), "reject"
         yield {"op": f"c28 handshake {dk.hex() if dk else '-'} {uk.hex()} {uid} {sid.to_bytes(2, 'big').hex()} {x.hex()} {mac.hex()}",
                "want": want, "cpriv": cpriv.hex(), "cpub": cpub.hex(), "spub": spub.hex(),
+               "skey": hashlib.sha256(sp_.exchange(cp.public_key())).digest()[:16].hex()}
+    # handshake from password STRINGS through the real constructor.  The pools collide on purpose: the same string in both
+    # roles of one session, and a string used in one role in case k and in the other role in case k+1 (all cases run in
+    # one process, so anything the derivation remembers between calls shows); empty and long strings
+    pool = ["secret", "trustme", "", "x" * 200, "p\xe4ssw\xf6rd", "a", "secret "]
+    pairs = [("secret", "trustme"), ("trustme", "secret"),            # roles swapped in the next case
+             ("a", "a"), ("x" * 200, "x" * 200),                       # same string in both roles
+             ("", "a"), ("a", ""), ("p\xe4ssw\xf6rd", "x" * 200), ("x" * 200, "p\xe4ssw\xf6rd"),
+             ("secret ", "secret"), ("secret", "secret ")]
+    for _ in range(0 if quick else 30):
+        a, b = rng.choice(pool), rng.choice(pool)
+        pairs += [(a, b), (b, a)] if rng.random() < 0.6 else [(a, a)]
+    for i, (upw, dpw) in enumerate(pairs):
+        cpriv, spriv = rng.randbytes(32), rng.randbytes(32)
+        cp, sp_ = X25519PrivateKey.from_private_bytes(cpriv), X25519PrivateKey.from_private_bytes(spriv)
+        cpub = cp.public_key().public_bytes(serialization.Encoding.Raw, serialization.PublicFormat.Raw)
+        spub = sp_.public_key().public_bytes(serialization.Encoding.Raw, serialization.PublicFormat.Raw)
+        uk = R.user_password_hash(upw)
+        dk = R.device_authentication_code(dpw) if dpw else None
+        uid, sid = rng.randrange(256), rng.randrange(65536)
+        x = R.xor(cpub, spub)
+        mac = R.session_response_mac(dk, sid, cpub, spub) if dk else rng.randbytes(16)
+        yield {"op": f"c28 handshake {dk.hex() if dk else '-'} {uk.hex()} {uid} {sid.to_bytes(2, 'big').hex()} {x.hex()} {mac.hex()}",
+               "want": "ok", "upw": upw, "dpw": dpw, "prime": list(pairs[i - 1]) if i else None, "cpriv": cpriv.hex(), "cpub": cpub.hex(), "spub": spub.hex(),
                "skey": hashlib.sha256(sp_.exchange(cp.public_key())).digest()[:16].hex()}
     # timer notify
     for i in range(40 if quick else 600):
